@@ -120,6 +120,20 @@ def entry_points(nap):
     E["Ts.get_slice"] = lambda cv, u, d: d["ts"].get_slice(float(cv([d["a0"]])[0]), float(cv([d["a1"]])[0]), time_unit=u)
     E["get_slice_open"] = lambda cv, u, d: d["tsd"].get_slice(float(cv([d["a0"]])[0]), time_unit=u)
     E["build_tensor_tsd"] = lambda cv, u, d: nap.build_tensor(d["ts"], d["ep"], bin_size=float(cv([d["b"]])[0]), time_unit=u)
+    # degenerate receivers and the other accepted argument forms (third-round seeds: a unit converted on the populated path only, a scalar window not converted)
+    E["TsGroup.count_empty_group"] = lambda cv, u, d: nap.TsGroup({}, time_support=d["wide"]).count(float(cv([d["b"]])[0]), d["ep"], time_units=u)
+    E["TsGroup.count_noep"] = lambda cv, u, d: d["grp"].count(float(cv([d["b"]])[0]), time_units=u)
+    E["TsGroup.count_empty_members"] = lambda cv, u, d: nap.TsGroup({2: nap.Ts(np.array([])), 5: nap.Ts(np.array([]))}, time_support=d["wide"]).count(float(cv([d["b"]])[0]), d["ep"], time_units=u)
+    E["count_empty_ts"] = lambda cv, u, d: nap.Ts(np.array([]), time_support=d["wide"]).count(float(cv([d["b"]])[0]), d["ep"], time_units=u)
+    E["bin_average_empty_tsd"] = lambda cv, u, d: nap.Tsd(np.array([]), np.array([]), time_support=d["wide"]).bin_average(float(cv([d["b"]])[0]), d["ep"], time_units=u)
+    E["get_empty_tsd"] = lambda cv, u, d: nap.Tsd(np.array([]), np.array([]), time_support=d["wide"]).get(float(cv([d["a0"]])[0]), float(cv([d["a1"]])[0]), time_units=u)
+    E["perievent_scalar_window"] = lambda cv, u, d: nap.compute_perievent(d["ts"], d["ref"], minmax=float(cv([d["cw"]])[0]), time_unit=u)
+    E["perievent_group"] = lambda cv, u, d: nap.compute_perievent(d["grp"], d["ref"], minmax=(float(cv([-d["cw"]])[0]), float(cv([d["cw"]])[0])), time_unit=u)
+    E["perievent_cont_scalar_window"] = lambda cv, u, d: nap.compute_perievent_continuous(d["reg"], d["ref"], minmax=float(cv([d["pw"]])[0]), time_unit=u)
+    E["find_support_gap_equal"] = lambda cv, u, d: d["ts"].find_support(float(cv([d["t"][1] - d["t"][0]])[0]), time_units=u)
+    E["Ts_default_support"] = lambda cv, u, d: nap.Ts(cv(d["t"]), time_units=u).time_support
+    E["Tsd_default_support"] = lambda cv, u, d: nap.Tsd(cv(d["t"]), d["v"], time_units=u).time_support
+    E["TsdFrame_default_support"] = lambda cv, u, d: nap.TsdFrame(cv(d["t"]), d["v2"], time_units=u).time_support
     return E
 
 
